@@ -270,7 +270,8 @@ pub fn run(mut run: Run) -> ! {
     run.case_timeout_s = 120.0;
     let quick = run.quick();
     let depth = if quick { 1 } else { 2 };
-    run.rule = format!("objectives min/max e with e = one of 26 cores (abs/min/max nests, logic values in arithmetic) in every chain of <= {depth} contexts from 12, over 4 declaration sets (real, non-negative, integer, asymmetric) x 5 side-constraint sets (incl. a non-convex one and a logic assertion); for every assignment of the discrete variables and every cell of the region partition of the continuous one the source objective f is affine, and two exact statements are decided: (i) no auxiliary extension of a source-feasible value has a better linear objective than f (one exact MILP per cell), (ii) every source-feasible value has an extension attaining f (interval-union coverage from exact projections); distinct = model text; non-trivial = compiled with at least one auxiliary variable");
+    let ncores = cores().len();
+    run.rule = format!("objectives min/max e with e = one of {ncores} cores (abs/min/max nests, logic values in arithmetic) in every chain of <= {depth} contexts from 12, over 4 declaration sets (real, non-negative, integer, asymmetric) x 5 side-constraint sets (incl. a non-convex one and a logic assertion); for every assignment of the discrete variables and every cell of the region partition of the continuous one the source objective f is affine, and two exact statements are decided: (i) no auxiliary extension of a source-feasible value has a better linear objective than f (one exact MILP per cell), (ii) every source-feasible value has an extension attaining f (interval-union coverage from exact projections); distinct = model text; non-trivial = compiled with at least one auxiliary variable");
     run.assume("exact source semantics and exact MILP/LP on the linear model; the region partition (breakpoints of objective and constraints plus projection endpoints) makes f affine on each cell, which is self-checked at the cell midpoint");
     run.assume("models with non-dyadic constants, or whose continuous variable occurs under a logic operator, are skipped and counted");
     let n = family_size(depth, quick);
